@@ -19,7 +19,7 @@ RULE = ('round trip: 1-3 cookies (names over the legal cookie-name alphabet; pla
         'insertion of non-alphabet / padding / whitespace bytes at every position, signature swapped with another cookie, other secret, other name, '
         'appended bytes, and canary payloads (pickle whose __reduce__ calls a recorder) under wrong / missing / unkeyed signatures. Oracle: '
         'untampered -> value equal; a presented value that is not a string signed with that secret for that name -> default, and neither the '
-        'pickle.loads proxy nor a canary fired. Non-trivial: round trip = value with a character outside the legal-unquoted set or signed nested '
+        'pickle.loads proxy nor a canary fired. Concurrency: a thread signing with secret NEW against a thread verifying a cookie signed with OLD under NEW (and a genuine one), every single-preemption schedule under the deterministic scheduler. Non-trivial: round trip = value with a character outside the legal-unquoted set or signed nested '
         'data; tamper = every distinct (cookie, tampered string) pair.')
 ASSUMPTIONS = ['the browser returns name=value exactly as emitted (bytes of the header viewed as Latin-1)',
                'empty plain values are outside the domain ("" is the deletion marker of this API)',
@@ -341,6 +341,64 @@ def check_tamper(ctx, case, full=False):
     ctx.sample({'signed': S, 'tampered_examples': [v for _, v in variants[:3]] + [variants[-1][1][:60]]})
 
 
+# ----------------------------------------------------------------- concurrent use of two secrets (the harness owns the schedule)
+def check_threaded(ctx, case):
+    """Thread A signs a cookie with secret NEW while thread B verifies a cookie that was signed with secret OLD, presenting NEW
+    (must read as absent, payload never deserialised) -- and B verifying a cookie genuinely signed with NEW (must read back).
+    Every single-preemption schedule of A against B and of B against A."""
+    import ombott
+    from vlib.sched import Scheduler, BIG
+    from checks.c08_threads import relevant
+    old, new, name = case['old'], case['new'], case['name']
+    s_old = set_and_collect([{'name': name, 'secret': old, 'data': case['data']}])[name]
+    s_new = set_and_collect([{'name': name, 'secret': new, 'data': case['data']}])[name]
+    data = from_plain(case['data'])
+    results = {}
+
+    def prime():
+        # the most recently used secret is OLD when the threads start
+        read_back(s_old, [(name, old)])
+
+    def a_sign():
+        r = ombott.Response()
+        r.set_cookie(name, data, secret=new)
+        return [v for k, v in r.headerlist if k == 'Set-Cookie']
+
+    def b_verify_foreign():
+        with LoadsSpy() as spy:
+            (jar, val), = read_back(s_old, [(name, new)])
+        results['foreign'] = (val, spy.calls, spy.canary)
+
+    def b_verify_genuine():
+        (jar, val), = read_back(s_new, [(name, new)])
+        results['genuine'] = val
+
+    def run(fns, schedule):
+        prime()
+        results.clear()
+        sc = Scheduler(fns, schedule, relevant)
+        sc.run()
+        for e in sc.errors:
+            if e is not None:
+                raise CheckFailure(f'thread raised {fmt_exc(e)} under schedule {schedule}')
+        if 'foreign' in results:
+            val, calls, canary = results['foreign']
+            if val != SENTINEL or calls or canary:
+                raise CheckFailure(f'cookie signed with secret {old!r} was accepted under secret {new!r} (value {val!r}, {calls} unpickler calls) while another thread '
+                                   f'was signing with {new!r}; schedule {schedule}')
+        if 'genuine' in results and not same(results['genuine'], data):
+            raise CheckFailure(f'cookie genuinely signed with {new!r} read back as {results["genuine"]!r} while another thread was signing; schedule {schedule}')
+        ctx.evals += 1
+        ctx.nontrivial('thr:' + repr((old, new, schedule)))
+        return sc.yields
+
+    for fns in ([a_sign, b_verify_foreign], [b_verify_foreign, a_sign], [a_sign, b_verify_genuine], [b_verify_genuine, a_sign]):
+        y0 = run(fns, [[0, BIG]])[0]
+        for k in range(0, y0 + 1):
+            run(fns, [[0, k], [1, BIG], [0, BIG]])
+        ctx.count('threaded_single_preemption_schedules', y0 + 1)
+
+
 def witness_k15(ctx):
     """Pinned witness of open finding K15 (plain cookie above U+00FF)."""
     c = [{'name': 'w', 'secret': None, 'value': 'Ω'}]
@@ -356,7 +414,7 @@ def witness_k15(ctx):
 
 def run(ctx):
     for name, case in load_corpus(ID):
-        ctx.guarded(check_tamper if 'other_secret' in case else check_roundtrip, case)
+        ctx.guarded(check_threaded if 'threaded' in case else (check_tamper if 'other_secret' in case else check_roundtrip), case)
         ctx.count('corpus')
     if ctx.shard == 0:
         ctx.guarded(lambda c, _: witness_k15(c), {'witness': 'K15'})
@@ -373,9 +431,14 @@ def run(ctx):
     ctx.hyp(rt_case(), check_roundtrip, n, label='roundtrip')
     m = 25 if ctx.tier == 'quick' else 150
     ctx.hyp(tamper_case(), check_tamper, m, label='tamper', shrink=False)
+    if ctx.shard == 0:
+        for old, new in (('old-secret', 'new-secret'), ('k', 'K'), ('é', 'e')):
+            ctx.guarded(check_threaded, {'threaded': True, 'old': old, 'new': new, 'name': 'sid', 'data': ['user', 7]})
 
 
 def replay(ctx, case):
     if 'witness' in case:
         return witness_k15(ctx)
+    if 'threaded' in case:
+        return check_threaded(ctx, case)
     (check_tamper if 'other_secret' in case else check_roundtrip)(ctx, case)
